@@ -20,7 +20,14 @@ partial def decProg (j : Json) : R Prog := do
 
 def encG (g : SymG) : Json := Json.arr #[ofOpt ofNat g.1, ofNat g.2]
 
+def handleRuns (j : Json) : R Json := do
+  let ps ← asList decProg j
+  let r := execRuns symGen (none, 0) ps
+  .ok (obj [("g", encG r.1), ("outs", ofList (ofList encG) r.2.1), ("failed", Json.bool r.2.2),
+            ("guarded", Json.bool (ps.all Guarded))])
+
 def handle (j : Json) : R Json := do
+  if let some rs := (j.getObjVal? "runs").toOption then return ← handleRuns rs
   let p ← decProg (← fld j "prog")
   let r := exec symGen (none, 0) p
   .ok (obj [("g", encG r.g), ("out", ofList encG r.out), ("failed", Json.bool r.failed),
